@@ -40,6 +40,8 @@ type Contract struct {
 	Loops      map[int]*LoopSpec
 	Pure       bool // call sites use an uninterpreted function of the arguments (assumption unless body is proved deterministic+frame-free)
 	ModNothing bool // "modifies nothing": call sites keep every heap (checked syntactically for in-repo bodies)
+	ModObject  string   // "modifies object <expr>": writes only into the object <expr> points into (and what it allocates)
+	ModKinds   []string // "modifies kinds k...": writes only cells of these heap kinds (e.g. uint8 for byte buffers)
 	ModYounger string // "modifies younger <expr>": writes only to the object <expr> points into and to younger objects (assumed)
 	Trusted    bool // body is not verified; contract is an assumption
 	Inline     bool // always inline at call sites
@@ -296,6 +298,16 @@ func (db *SpecDB) LoadSpecFile(file, pkgPath string) error {
 				cur.ModNothing = true
 			} else if strings.HasPrefix(rest, "younger ") {
 				cur.ModYounger = strings.TrimSpace(strings.TrimPrefix(rest, "younger "))
+			} else if strings.HasPrefix(rest, "object ") {
+				// modifies object <expr> [kinds k1 k2 ...]
+				r := strings.TrimSpace(strings.TrimPrefix(rest, "object "))
+				if i := strings.Index(r, " kinds "); i >= 0 {
+					cur.ModKinds = strings.Fields(r[i+7:])
+					r = strings.TrimSpace(r[:i])
+				}
+				cur.ModObject = r
+			} else if strings.HasPrefix(rest, "kinds ") {
+				cur.ModKinds = strings.Fields(strings.TrimPrefix(rest, "kinds "))
 			} else {
 				return fmt.Errorf("%s:%d: only 'modifies nothing' is supported", file, ln)
 			}
